@@ -779,10 +779,14 @@ class RefMachine(object):
                 if top.kind == "doctl":
                     self.loops.pop()
                     self.marks.add("exit-in-do")
+                    self.hazards.add("exit-in-do")      # the C++ mismanages its loop stack here (may read outside)
                 if top.kind in ("word", "main"):
                     break
             if any(f.kind == "doctl" for f in self.frames):
                 self.marks.add("exit-under-do")
+                self.hazards.add("exit-under-do")
+            if self.hazards and self.hazard_at is None:
+                self.hazard_at = "exit"
         elif op == "halt":
             raise Fault(E["user_halt"])
         elif op == "put":
